@@ -67,6 +67,17 @@ CHECKS.update({
         design='DESIGN.md §4 C12', engine='worlds+refmodel'),
 })
 
+CHECKS.update({
+    'C18': dict(
+        technique='explicit-state BFS over histories with successful/failing runs, retries and forced recomputations in one process; run-info/log oracle per stored result',
+        text='Bounded exhaustive exploration of all histories over {new(variant), value, task force, fail(task, raise | raise-after-logging | wrong-type)} within one process; '
+             'after every step, for every task with a stored result, the run info (task, every parameter representation, input-task keys, config, user records) must be exactly '
+             'that of the generation that produced the stored value, and after every successful run the log must hold exactly that run\'s messages. A focused slice on one task '
+             'reaches depth 6 so that success / force / failing recomputation / retry sequences are covered.',
+        note='Timestamps, user name and version are not compared; the log of a task whose latest attempt failed is not constrained (statement speaks of successful runs).',
+        design='DESIGN.md §4 C18', engine='worlds+refmodel+histories'),
+})
+
 PENDING_REASON = 'check not built yet in this round (planned per DESIGN.md §4; technique applies)'
 
 
